@@ -103,6 +103,13 @@ def handle (s : S) (i : Nat) (j : Json) : S × List Json :=
               (if !iAccepted && !changed.isEmpty then [verdictViol i "C17.state_unchanged" detail] else []) ++
               (if mAccepted != iAccepted then [verdictDiff i s!"{module}.{msg} accepted from a non-owner" mAccepted iAccepted] else [])
             (s', if vs.isEmpty then [verdictOk i] else vs)
+      else if kind == "existing" then
+        -- a permissionless CREATE message aimed at an object that already exists (and is governance's to change): whatever its
+        -- other fields say, it must be refused and the stored object must stay as it is - otherwise it is an update without authority
+        let vs : List Json :=
+          (if iAccepted then [verdictViol i "C17.existing_object_overwritten" detail] else []) ++
+          (if !iAccepted && !changed.isEmpty then [verdictViol i "C17.state_unchanged" detail] else [])
+        (s', if vs.isEmpty then [verdictOk i] else vs)
       else (s', [verdictBad i "c17.case kind"])
     | _, _, _, _, _, _, _ => (s, [verdictBad i "c17.case fields"])
   | some "c17.note" => (s, [verdictOk i])  -- recorded, never judged (messages outside the letter of the property)
